@@ -1,8 +1,9 @@
 #!/usr/bin/env python3-vt
 """Diff of solvers on a sample of the queries the checks discharge (run once per
 encoding change; DESIGN 2).  A small exploration of a C18 template (path
-conditions + the Balanced obligation) and of a C09 lexer step (path conditions +
-the line/column equalities) is run with z3 5.1 (the engine); every sampled query is
+conditions + the Balanced obligation), of a C09 lexer step (path conditions +
+the line/column equalities) and of a pattern with multi-token hole classes (choice-
+variable implications) is run with z3 5.1 (the engine); every sampled query is
 exported as SMT-LIB2 and re-decided by /usr/bin/z3 (4.8.12) and cvc5.  Any
 disagreement, '(error' line or unknown is reported and the exit status is 1.
 """
@@ -101,6 +102,41 @@ def sample_c09():
             break
 
 
+def sample_groups():
+    """a pattern with multi-token hole classes: the choice-variable implications are part of every query;
+    on each accepted path also a VALID claim (the first position of a group determines whether its last one is EPS
+    only through the choice variable: 'group starts with _Static_assert => second position is (') must be proved"""
+    from checks import c03
+
+    P = symparser.load()
+    alpha = toklex.full_alphabet()
+    ctx = [c for c, _ in c03.rare_contexts() if c.name == "rare:struct-members"][0]
+    tpl = ctx.template(alpha, 0)
+    Lex = toklex.make_lexer_class(tpl)
+    sa, lp = alpha.idx("_Static_assert"), alpha.idx("(")
+    starts = [i for i in range(tpl.n - 1) if sa in tpl.doms[i] and len(tpl.doms[i]) > 1]
+
+    def once():
+        eng = E.cur()
+        try:
+            P.CParser(lexer=Lex).parse("", "f.c")
+        except Exception:
+            record(eng, z3.BoolVal(False), "sat")
+            return {"cls": "r"}
+        claim = z3.And([z3.Implies(tpl.kvars[i] == sa, tpl.kvars[i + 1] == lp) for i in starts])
+        r = eng.prove(claim)
+        record(eng, claim, "unsat" if r == "proved" else "sat")
+        return {"cls": "a"}
+
+    eng = E.ENG = E.Engine()
+    tpl.declare(eng)
+    n = 0
+    for _ in eng.explore(once):
+        n += 1
+        if n > 200 or len(SAMPLES) >= LIMIT:
+            break
+
+
 def run_binary(cmd, path):
     try:
         r = subprocess.run(cmd + [path], capture_output=True, text=True, timeout=60)
@@ -118,6 +154,8 @@ def main():
     sample_c18()
     LIMIT = 60
     sample_c09()
+    LIMIT = 90
+    sample_groups()
     res = {"queries": len(SAMPLES), "disagreements": [], "by_solver": {}}
     solvers = {"z3-4.8.12": ["/usr/bin/z3", "-smt2"], "cvc5": ["cvc5", "--lang", "smt2"]}
     for name in solvers:
